@@ -86,6 +86,13 @@ class _VariationalStrategy(Module, ABC):
     def _clear_cache(self) -> None:
         clear_cache_hook(self)
 
+    def __getstate__(self):
+        # The memoized quantities may be non-leaf tensors, which do not support the deepcopy protocol.
+        # They are recomputed on demand, so copies (deepcopy / pickle) are made without them.
+        state = self.__dict__.copy()
+        state.pop("_memoize_cache", None)
+        return state
+
     def _expand_inputs(self, x: Tensor, inducing_points: Tensor) -> Tuple[Tensor, Tensor]:
         """
         Pre-processing step in __call__ to make x the same batch_shape as the inducing points
